@@ -415,6 +415,7 @@ L1 = {
     "C13": {"quick": [("MC_TextMatch", "MC_TextMatch_whole_q.cfg", 12)], "thorough": [("MC_TextMatch", "MC_TextMatch_whole.cfg", 14)]},
     "C14": {"quick": [("MC_TextMatch", "MC_TextMatch_split_q.cfg", 12), ("MC_TextMatch", "MC_TextMatch_joined_q.cfg", 12)],
             "thorough": [("MC_TextMatch", "MC_TextMatch_split.cfg", 14), ("MC_TextMatch", "MC_TextMatch_joined.cfg", 14)]},
+    "C07": {"quick": [("MC_Store", "MC_Store_fixed.cfg", 12)], "thorough": [("MC_Store", "MC_Store_fixed_t.cfg", 14)]},
     "C08": {"quick": [("MC_Ranking", "MC_Ranking_%s.cfg" % sc, 6) for sc in ("exact_vs_typo", "short_vs_long", "position", "length")],
             "thorough": [("MC_Ranking", "MC_Ranking_%s.cfg" % sc, 12) for sc in ("exact_vs_typo", "both_vs_one", "short_vs_long", "word_order", "position", "length", "function")]},
     "C11": {"quick": [("MC_Tokenize", "MC_Tokenize_fr_q.cfg", 10)], "thorough": [("MC_Tokenize", "MC_Tokenize_%s.cfg" % l, 14) for l in ("de", "fr", "ru")]},
